@@ -366,7 +366,7 @@ def run(tier, seed, out, drv, facts):
     env_cases(out, thorough)
     behaviour_cases(out, rng, thorough)
     hooked_module_cases(out)
-    toggling_programs(out, drv, facts, rng, 2000 if thorough else 150)
+    toggling_programs(out, drv, facts, rng, 20000 if thorough else 150)
 
 
 def replay(rep, out, drv, facts):
